@@ -162,15 +162,22 @@ def run(repo: Repo) -> Result:
     # module-level table {T: Cls} looked up with token.kind and called once.
     dispatch: dict[str, list] = {}  # token -> [(class name, constructor call, line)]
 
+    from ..astutil import single_assignments as _single_assignments
+
+    pie_locals = _single_assignments(pie.node)
+
     def right_operand_ok(c) -> bool:
+        if not (isinstance(c, ast.Call) and len(c.args) == 3):
+            return False
+        right = c.args[2]
+        if isinstance(right, ast.Name) and right.id in pie_locals:
+            right = pie_locals[right.id]  # `right = parse_boolean_primitive(...)` bound first
         return (
-            isinstance(c, ast.Call)
-            and len(c.args) == 3
-            and is_name(c.args[0], "token")
+            is_name(c.args[0], "token")
             and is_name(c.args[1], P_LEFT)
-            and isinstance(c.args[2], ast.Call)
-            and callee_name(c.args[2]) == "parse_boolean_primitive"
-            and [text(x) for x in c.args[2].args] == [P_ENV, P_STREAM, "precedence"]
+            and isinstance(right, ast.Call)
+            and callee_name(right) == "parse_boolean_primitive"
+            and [text(x) for x in right.args] == [P_ENV, P_STREAM, "precedence"]
         )
 
     for st in pie.node.body:
